@@ -7,10 +7,14 @@ package c03
 
 import (
 	"fmt"
+	"os"
+	"sort"
 	"strings"
 	"testing"
 
 	"pgregory.net/rapid"
+
+	"github.com/ozontech/seq-db/seq"
 
 	"verif/internal/evid"
 	"verif/internal/gen"
@@ -23,6 +27,11 @@ type Req struct {
 	Style model.RenderStyle `json:"style"`
 	Aggs  []model.AggSpec   `json:"aggs,omitempty"`
 	Fetch []model.ID        `json:"fetch,omitempty"` // a fetch list instead of a search when non-empty
+	// Multi: an aggregation grouped by (or over) a field that has several tokens in one document
+	// (a text field).  No reference value is claimed for it; its result must be the same in
+	// every form of the fraction.  Generated only on request: recorded finding, see
+	// known_findings.json ("C03 multi-token-group-by").
+	Multi *model.AggSpec `json:"multi,omitempty"`
 }
 
 type Case struct {
@@ -164,6 +173,9 @@ func genReq(t *rapid.T, c *Case, docs model.Corpus) Req {
 	}
 	r.Style = gen.Style(t)
 	r.Aggs = gen.AggSpecs(t, 2)
+	if os.Getenv("C03_INCLUDE_KNOWN") == "multi-token-group-by" && rapid.Bool().Draw(t, "multi") {
+		r.Multi = &model.AggSpec{Func: "count", GroupBy: "msg"}
+	}
 	return r
 }
 
@@ -236,7 +248,22 @@ func runCase(c Case) (evid.Result, error) {
 	return res, nil
 }
 
+// multiSeen: the result of a request's Multi aggregation in the first form that was asked
+var multiSeen = map[int]string{}
+
+func aggText(a seq.AggregationResult) string {
+	rows := make([]string, 0, len(a.Buckets))
+	for _, b := range a.Buckets {
+		rows = append(rows, fmt.Sprintf("%q@%d=%v/%d", b.Name, b.MID, b.Value, b.NotExists))
+	}
+	sort.Strings(rows)
+	return fmt.Sprintf("not_exists=%d %v", a.NotExists, rows)
+}
+
 func battery(c *Case, docs model.Corpus, st *harness.Store, form string, res *evid.Result) error {
+	if form == "active" {
+		multiSeen = map[int]string{}
+	}
 	idx := docs.Index()
 	for i := range c.Reqs {
 		rq := &c.Reqs[i]
@@ -272,6 +299,19 @@ func battery(c *Case, docs model.Corpus, st *harness.Store, form string, res *ev
 		}
 		if rq.R.Interval > 0 && !harness.EqualHist(harness.HistOf(qpr), want.Hist) {
 			return evid.Failf("hist-differs", "[%s] req %d %s: got %s want %s", form, i, short(text), harness.FmtHist(harness.HistOf(qpr)), harness.FmtHist(want.Hist))
+		}
+		if rq.Multi != nil {
+			mq, err := st.Search(&rq.R, text, []model.AggSpec{*rq.Multi})
+			if err != nil {
+				return evid.Failf("search-error", "[%s] req %d %s: %v", form, i, short(text), err)
+			}
+			got := aggText(mq.Aggregate(harness.AggArgs([]model.AggSpec{*rq.Multi}))[0])
+			if first, ok := multiSeen[i]; !ok {
+				multiSeen[i] = got
+			} else if first != got {
+				return evid.Failf("agg-depends-on-form:multi-token-group-by", "req %d %s agg %+v: in form %s the answer is %s, in the active fraction it was %s", i, short(text), *rq.Multi, form, got, first)
+			}
+			res.Labels = append(res.Labels, "multi-token-group-by")
 		}
 		if len(rq.Aggs) > 0 {
 			matching := model.Matching(docs.Dedup(), &rq.R)
